@@ -19,6 +19,11 @@ type Layout struct {
 	Indent    bool
 	NoFinalNL bool // the text ends with its last token
 	JoinTop   bool // nothing but a space between a definition's closing brace and what follows it
+	// BreakAfterReadonly puts "readonly" on a line of its own. The pinned parser rejects that; the property does not say
+	// whether it is well-formed. Texts in such a layout may be rejected (Unspecified) - if they are accepted, everything
+	// the properties say about accepted texts applies to them.
+	BreakAfterReadonly bool
+	Unspecified        bool
 }
 
 var Layouts = []Layout{
@@ -27,8 +32,9 @@ var Layouts = []Layout{
 	{Name: "oneline", Sep: " ", Soft: "space", NL: "\n", NoFinalNL: true},
 	{Name: "airy", Sep: " \t ", Soft: "blank", NL: "\n", Indent: true},
 	{Name: "tight", Sep: " ", Tight: true, Soft: "none", NL: "\n", NoFinalNL: true},
-	{Name: "gappy", Sep: "  ", Soft: "gaps", NL: "\n", Indent: false},                                // three empty lines wherever an empty line may go
-	{Name: "joined", Sep: " ", Soft: "line", NL: "\n", Indent: true, JoinTop: true, NoFinalNL: true}, // bodies on several lines, the next definition on the line of the closing brace
+	{Name: "gappy", Sep: "  ", Soft: "gaps", NL: "\n", Indent: false}, // three empty lines wherever an empty line may go
+	{Name: "joined", Sep: " ", Soft: "line", NL: "\n", Indent: true, JoinTop: true, NoFinalNL: true},
+	{Name: "readonly-own-line", Sep: " ", Soft: "line", NL: "\n", Indent: true, BreakAfterReadonly: true, Unspecified: true}, // bodies on several lines, the next definition on the line of the closing brace
 }
 
 func isPunct(t string) bool {
@@ -51,6 +57,11 @@ func Render(tokens []string, l Layout) string {
 		switch t {
 		case "\n":
 			if pendingBreak < 1 {
+				pendingBreak = 1
+			}
+			continue
+		case "<ro>":
+			if l.BreakAfterReadonly && pendingBreak < 1 {
 				pendingBreak = 1
 			}
 			continue
